@@ -45,7 +45,7 @@ ASSUMPTIONS = [
     "oracle vk/ref/seqsem.py implements the documented sequential semantics; interpreted functions are the pure functions of vk.recipe.IF_TABLE",
 ]
 SHARD_TIMEOUT = {"quick": 900, "thorough": 5400}
-BOUNDS = {"quick": dict(n=480, max_states=1500), "thorough": dict(n=3000, max_states=4000)}
+BOUNDS = {"quick": dict(n=480, max_states=1500), "thorough": dict(n=9000, max_states=4000)}
 
 PROFILE_IF = dict(interpreted_functions=0.7, undefined_init=0.0, invariants=0.0, forall_effects=False, int_params=0.0, max_actions=3, max_fluents=4)
 PROFILE_OS = dict(interpreted_functions=0.0, undefined_init=0.0, invariants=0.0, forall_effects=False, int_params=0.0, metric="oversub", max_actions=3, max_fluents=4)
